@@ -54,10 +54,13 @@ func evalGroup(o *Obj, items []interface{}, whole interface{}, env *Env) (interf
 	for _, k := range order {
 		g := groups[k]
 		var c interface{}
+		list := g.items
 		if g.all {
-			c = items
-		} else {
-			c = g.items
+			list = items
+		}
+		c = list
+		if len(list) == 1 {
+			c = list[0] // a group of one item is that item itself
 		}
 		v, err := Eval(o.Pairs[g.pair][1], c, env)
 		if err != nil {
